@@ -52,6 +52,13 @@ async def party_main(world, p, prog, case):
             else:
                 p.obs['recv_after_arrival'] = p.obs.get('recv_after_arrival', 0) + 1
             got[k] = bytes(r)
+    if prog.get('restart_t') is not None:
+        # second session in the same process with another threshold: shutdown, use the threshold setter (which
+        # regenerates this party's PRSS keys), start again; the key tables must then be right for the NEW threshold
+        await rt.shutdown()
+        rt.threshold = prog['restart_t']
+        await rt.start()
+        p.obs['keys_after_restart'] = dict(getattr(rt, '_prss_keys', {}) or {})
     return {'got': {str(k): v.hex() if len(v) <= 32 else (len(v), v[:8].hex(), hash_bytes(v)) for k, v in got.items()}}
 
 
@@ -102,13 +109,16 @@ def judge(fam, case, cfg, w, res):
                     res.violations.append(('invariant:handshake-pid', f'party {p.pid}: connection registered for peer {peer} identifies itself as {seen}'))
         if not cfg.no_prss:
             check_keys(cfg, w, res)
+            if prog.get('restart_t') is not None and not res.violations:
+                check_keys(cfg, w, res, t=prog['restart_t'], obs_key='keys_after_restart')
+                res.info.setdefault('probes', {})['restarts'] = 1
 
 
-def check_keys(cfg, w, res):
-    m, t = cfg.m, cfg.t
+def check_keys(cfg, w, res, t=None, obs_key='keys_after_start'):
+    m, t = cfg.m, (cfg.t if t is None else t)
     holders = {}
     for p in w.parties:
-        keys = p.obs.get('keys_after_start')
+        keys = p.obs.get(obs_key)
         if keys is None:
             return
         for S, key in keys.items():
